@@ -28,20 +28,39 @@ def build(pid, builds):
     bdir = os.path.join(ROOT, "build", pid)
     shutil.rmtree(bdir, ignore_errors=True)
     os.makedirs(bdir)
-    procs = []
-    for b in builds:
-        out = os.path.join(bdir, b["name"])
-        srcs = [s if os.path.isabs(s) else os.path.join(ROOT, s) for s in b["sources"]]
+    def inc_flags(b):
         incs = []
         for i in b.get("includes_first", []):
             incs += ["-I", i if os.path.isabs(i) else os.path.join(ROOT, i)]
-        cmd = [b.get("compiler", "g++"), "-std=c++17"] + b.get("flags", ["-O1", "-g"]) + incs + \
-              ["-I", os.path.join(REPO, "src"), "-I", os.path.join(ROOT, "harness")] + srcs + ["-o", out] + b.get("libs", [])
-        procs.append((b, cmd, subprocess.Popen(cmd, stdout=subprocess.PIPE, stderr=subprocess.STDOUT, text=True)))
+        return incs + ["-I", os.path.join(REPO, "src"), "-I", os.path.join(ROOT, "harness")]
+
+    def one(b):
+        out = os.path.join(bdir, b["name"])
+        cxx = b.get("compiler", "g++")
+        log = ""
+        if "objects" in b:
+            objs = []
+            for k, o in enumerate(b["objects"]):
+                obj = out + ".%d.o" % k
+                src = o["source"] if os.path.isabs(o["source"]) else os.path.join(ROOT, o["source"])
+                cmd = [cxx, "-std=c++17"] + o["flags"] + inc_flags(b) + ["-c", src, "-o", obj]
+                p = subprocess.run(cmd, stdout=subprocess.PIPE, stderr=subprocess.STDOUT, text=True)
+                log += p.stdout
+                if p.returncode != 0:
+                    return b["name"], (p.returncode, log, cmd)
+                objs.append(obj)
+            cmd = [cxx] + objs + b.get("link", []) + ["-o", out]
+            p = subprocess.run(cmd, stdout=subprocess.PIPE, stderr=subprocess.STDOUT, text=True)
+            return b["name"], (p.returncode, log + p.stdout, cmd)
+        srcs = [s if os.path.isabs(s) else os.path.join(ROOT, s) for s in b["sources"]]
+        cmd = [cxx, "-std=c++17"] + b.get("flags", ["-O1", "-g"]) + inc_flags(b) + srcs + ["-o", out] + b.get("libs", [])
+        p = subprocess.run(cmd, stdout=subprocess.PIPE, stderr=subprocess.STDOUT, text=True)
+        return b["name"], (p.returncode, p.stdout, cmd)
+
     results = {}
-    for b, cmd, p in procs:
-        outp, _ = p.communicate()
-        results[b["name"]] = (p.returncode, outp, cmd)
+    with concurrent.futures.ThreadPoolExecutor(max_workers=NCPU) as ex:
+        for name, res in ex.map(one, builds):
+            results[name] = res
     return bdir, results
 
 
